@@ -573,6 +573,75 @@ def rule_collect_outermost(ctx):
 
 
 # ------------------------------------------------------------------------------------------
+def rule_live_precond(ctx):
+    """A participant is alive while it has a handle OR a guard (unpin and release_handle finalize when both counts are
+    zero - EBR-FINALIZE-HANDOFF).  A Guard only witnesses guard_count >= 1: cs() in a thread-local destructor that runs
+    after HANDLE's pins through a temporary handle that is dropped at once, so the guard lives with handle_count == 0.
+    Whatever a Guard method reaches must therefore not fail on `handle_count == 0` alone."""
+    r = RuleResult("EBR-LIVE-PRECOND", ["C20", "C16"],
+                   "no assertion reachable from a Guard method fails on handle_count == 0 alone: a guard may outlive the "
+                   "temporary handle it was pinned through (with_handle's fallback), the state unpin handles by finalizing")
+    prog = ctx.prog
+    LOCAL = P + "Local::"
+    entries = sorted(n for n, b in prog.bodies.items()
+                     if b.kind in ("fn", "assoc_fn") and (b.j.get("impl_self") or "").endswith("guard::Guard") and
+                     any((c.target or "").startswith(LOCAL) for (_, _, c) in b.calls()))
+    # the counter plumbing is read inlined into the Guard method, so that an assertion after `handle_count += 1` on the
+    # same path is not mistaken for a precondition
+    inl = {REPIN, LOCAL + "acquire_handle", LOCAL + "release_handle"}
+    ex = Exec(prog, inline=inl)
+    n = 0
+    for name in entries:
+        b = prog.body(name)
+        r.functions.add(name)
+        for p in ex.paths(b):
+            r.paths += 1
+            if p.exit[0] != "diverge":
+                continue
+            pan = [i for i, e in enumerate(p.events) if e.kind == "call" and (e.ntarget or "").startswith("core::panicking::")]
+            if not pan:
+                continue
+            pre = p.events[:pan[-1]]
+            # the decisive test: the last condition before the panic
+            conds = [e for e in pre if e.kind == "cond"]
+            if not conds:
+                continue
+            # every condition of the assertion (a || b fails through both): those after the last non-assert event
+            last_calls = [i for i, e in enumerate(pre) if e.kind == "call" and e.ntarget not in ("std::cell::Cell::get",)
+                          and not (e.ntarget or "").startswith(("std::fmt::", "core::fmt::")) and not e.data.get("pure")]
+            start = (last_calls[-1] + 1) if last_calls else 0
+            tail = [e for e in pre[start:] if e.kind == "cond"]
+            on_h = [e for e in tail if any(_cell_get(x, "Local.handle_count") for x in subterms(e.term))]
+            on_g = [e for e in tail if any(_cell_get(x, "Local.guard_count") for x in subterms(e.term))]
+            if not on_h:
+                continue
+            # reads of handle_count made before any write of it on this path: a precondition on entry
+            first_set = [i for i, e in enumerate(pre) if e.kind == "call" and e.ntarget == "std::cell::Cell::set"
+                         and "Local.handle_count" in show(e.args[0])]
+            gets = {e.result: i for i, e in enumerate(pre) if e.kind == "call" and e.ntarget == "std::cell::Cell::get"
+                    and _cell_get(e.result, "Local.handle_count")}
+            entry_pre = all(gets.get(x, 0) < (first_set[0] if first_set else len(pre))
+                            for e in on_h for x in subterms(e.term) if _cell_get(x, "Local.handle_count"))
+            if not entry_pre:
+                r.instance("%s: assertion on handle_count after this path incremented it" % name.split("::")[-1], True)
+                continue
+            n += 1
+            ok = bool(on_g)
+            where = on_h[-1].body.name
+            r.instance("%s -> %s: failing on handle_count requires guard_count == 0 too" % (name.split("::")[-1],
+                                                                                          where.split("::")[-1]), ok)
+            if not ok:
+                r.violate(where, "handle-assert", "asserts that the participant has a handle, but is reached from Guard::%s, and "
+                          "a guard can outlive the temporary handle it was pinned through (cs() in a thread-local destructor "
+                          "after HANDLE is gone): the assertion aborts the process in debug builds" % name.split("::")[-1],
+                          on_h[-1].loc())
+    r.require(len(entries), 2, "Guard methods that reach Local")
+    if n < 1 and not r.violations:
+        r.notes.append("no entry precondition on handle_count is asserted on any Guard path")
+    return r
+
+
+# ------------------------------------------------------------------------------------------
 def rule_guard_count(ctx):
     r = RuleResult("EBR-GUARD-COUNT", ["C16", "C13"],
                    "pin increments and unpin decrements guard_count on every path; Local.epoch is cleared only for the "
